@@ -305,8 +305,8 @@ func (c *aeCtx) queryElemBy(root *ssa.Function, seq string, pick func(terms map[
 			if s, ok := c.lsum[loopID(f, l)]; ok && s.ok {
 				for k := range c.terms {
 					if strings.HasPrefix(k, "zip:"+loopID(f, l)+"(") && (strings.HasSuffix(k, "("+seq+")") || seq == "") {
-						if seq == "" && lp != nil && lp != l {
-							res.oof = "several zip loops"
+						if lp != nil && lp != l {
+							res.oof = "several position-wise loops over the same sequence"
 							return res
 						}
 						fn, lp = f, l
